@@ -2,11 +2,12 @@ package st
 
 import (
 	"fmt"
+	"reflect"
+	"strings"
 	"time"
 	"unsafe"
 
 	"github.com/jamespfennell/gtfs"
-	"github.com/jamespfennell/gtfs/warnings"
 
 	"vharness/internal/abs"
 )
@@ -281,7 +282,7 @@ func Project(s *gtfs.Static) Result {
 		r.Trips = append(r.Trips, p)
 	}
 	for _, w := range s.Warnings {
-		if _, ok := w.Kind.(warnings.MissingColumns); ok {
+		if kindName(w.Kind) == "MissingColumns" {
 			r.Warnings = append(r.Warnings, PWarning{File: fmt.Sprintf("%s:%T", w.File, w.Kind), Row: w.RowNumber})
 		} else { // a warning about a row, whatever its kind
 			r.Warnings = append(r.Warnings, PWarning{File: string(w.File), Row: w.RowNumber})
@@ -301,9 +302,9 @@ func WarningContents(s *gtfs.Static, rendered map[string]Rendered) abs.Seq[bool]
 			good = eq(w.RowContent, rd.Header) && eq(w.HeaderContent, rd.Header)
 		}
 		// a warning that says which values the row lacks must name columns whose cells in that row really are blank
-		if k, isMissing := w.Kind.(warnings.AgencyMissingValues); isMissing && good && w.RowNumber >= 1 {
+		if cols, isMissing := missingValueColumns(w.Kind); isMissing && good && w.RowNumber >= 1 {
 			row := rd.Rows[w.RowNumber-1]
-			for _, col := range k.Columns {
+			for _, col := range cols {
 				for i, h := range rd.Header {
 					if h == col && i < len(row) && row[i] != "" {
 						good = false
@@ -314,6 +315,43 @@ func WarningContents(s *gtfs.Static, rendered map[string]Rendered) abs.Seq[bool]
 		out = append(out, good)
 	}
 	return out
+}
+
+// The kinds of warnings are looked at by name and shape rather than by Go type, so that the harness keeps building
+// when the warnings package gains, renames or reshapes kinds.
+func kindName(k any) string {
+	if k == nil {
+		return ""
+	}
+	t := reflect.TypeOf(k)
+	for t.Kind() == reflect.Ptr {
+		t = t.Elem()
+	}
+	return t.Name()
+}
+
+// missingValueColumns returns the Columns of a warning kind that says which values a row lacks (a kind whose name
+// ends in "MissingValues" and that has a Columns []string field).
+func missingValueColumns(k any) ([]string, bool) {
+	if !strings.HasSuffix(kindName(k), "MissingValues") {
+		return nil, false
+	}
+	v := reflect.ValueOf(k)
+	for v.Kind() == reflect.Ptr {
+		v = v.Elem()
+	}
+	if v.Kind() != reflect.Struct {
+		return nil, false
+	}
+	f := v.FieldByName("Columns")
+	if !f.IsValid() || f.Kind() != reflect.Slice || f.Type().Elem().Kind() != reflect.String {
+		return nil, false
+	}
+	out := make([]string, f.Len())
+	for i := range out {
+		out[i] = f.Index(i).String()
+	}
+	return out, true
 }
 
 func eq(a, b []string) bool {
